@@ -96,7 +96,7 @@ def main():
         "not_applicable": na,
         "notes": "Exit codes of ./check: 0 all obligations discharged (or listed known findings), 1 violated obligation "
                  "(VIOLATION line), 2 undecided (tool limit, lost anchor) - never an alarm. fix: commits in /repo: "
-                 "91725ba, a6301c8, c5e9301 (see known_findings.json).",
+                 "91725ba, a6301c8, c5e9301, 0587f15, bd766f1, 9e0fd82 (see known_findings.json).",
     }
     with open(os.path.join(VERIF, "MANIFEST.json"), "w") as f:
         json.dump(man, f, indent=1)
